@@ -103,8 +103,13 @@ def _m2t():
     cfg = _m2()
     cfg['traits'] = ['t2']
     cfg['servers']['s1']['initial'] = True
+    # a trait that only a server record and a manifest name (no allocation
+    # does: load_allocations gives allocation traits a code of their own)
+    cfg['servers']['s1']['variants'][0]['traits'] = ['t1', 'hw']
+    cfg['templates']['hw'] = {'memory': '2M', 'cpu': '2%', 'disk': '2M',
+                              'affinity': 'h', 'traits': ['hw']}
     cfg['events'] = mastercfg.ev(
-        ('app+', 'pl'), ('app+', 't1'), ('app-', 0),
+        ('app+', 'pl'), ('app+', 't1'), ('app+', 'hw'), ('app-', 0),
         ('alloc', 2), ('alloc', 0),
         ('srv', 's0', 1), ('srv', 's0', 0),
         ('pres-', 's1'), ('pres+', 's1', 0),
